@@ -1,4 +1,5 @@
 import EmsModel.Core.Lookup
+import EmsModel.Core.LookupSession
 import EmsModel.Core.GeomProto
 /-! Line-protocol driver for C04 (point lookup).
 `hits   <rings> <pt>`                          → sorted positions whose polygon intersects the point (exact test)
@@ -6,6 +7,9 @@ import EmsModel.Core.GeomProto
   (`hits`: the spatial-index result in the order it was reported, `auto`: exact hit set)
 `cf1dhits lon=… lat=… [lonb=… latb=…] pt=<pt>` → the hits on a CF 1-D grid from the bounds alone (`Ems.cf1dHits`,
   the interval-containment specification proved equal to the exact hit set: `C04.cf1d_hits_eq`)
+`session <grids> <default> <q;q;…|-> <rings> <pt> <hits|auto>` → the replies of ONE convention object to the questions
+  `w:<kind>:<n>` (wind_index) / `r:<kind>:<j,i>` (ravel_index) put in that order and then to the lookup
+  (`Ems.lookupSession`), joined with `;` (`kind:j,i` | `n` | `ERR`, the lookup as above)
 plus the geometry ops of `Core/GeomProto.lean` (`pip`, `valid`, `polys`). -/
 open Ems Ems.Proto Ems.GeomProto
 
@@ -19,6 +23,37 @@ def parseRings? (s : String) : Option (List (Option Poly)) :=
   Proto.allSome ((s.splitOn "|").map fun r => if r == "-" then some none else (parseRing? r).map some)
 
 def exactIntersects (p : Poly) (q : Pt) : Bool := pointInPoly q p
+
+-- ---- round 6: sessions (C04Hist) -------------------------------------------------------------------------------
+def parseQuestion? (s : String) : Option LookupQuestion :=
+  match s.splitOn ":" with
+  | ["w", k, n] => (parseInt? n).map (fun n => .wind k n)
+  | ["r", k, idx] => (parseIntList? idx).map (fun idx => .ravel k idx)
+  | _ => none
+
+def showReply : LookupReply → String
+  | .native (some (k, idx)) => s!"{k}:{showNatList idx}"
+  | .native none => "ERR"
+  | .linear (some n) => toString n
+  | .linear none => "ERR"
+  | .item none => "-"
+  | .item (some item) =>
+    let nat := match item.native with
+      | some (k, idx) => s!"{k}:{showNatList idx}"
+      | none => "ERR"
+    s!"{item.linear} {nat} {showOptRing item.polygon}"
+
+def sessionStep (gs dflt qs rings pt hits : String) : String :=
+  match parseGrids? gs, parseRings? rings, parsePt? pt with
+  | some grids, some ps, some q =>
+    let hs := if hits == "auto" then some (hitSet exactIntersects ps q) else parseNatList? hits
+    let qs? := if qs == "-" then some [] else Proto.allSome ((qs.splitOn ";").map parseQuestion?)
+    match hs, qs? with
+    | some hs, some qs =>
+      joinWith ";" ((lookupSession { grids := grids, default := dflt } ps (qs ++ [.lookup hs])).map showReply)
+    | _, _ => "BAD"
+  | _, _, _ => "BAD"
+-- ---- end round 6 -------------------------------------------------------------------------------------------------
 
 def step (line : String) : String :=
   let ws := words line
@@ -42,6 +77,7 @@ def step (line : String) : String :=
             | none => "ERR"
           s!"{item.linear} {nat} {showOptRing item.polygon}"
     | _, _, _ => "BAD"
+  | ["session", gs, dflt, qs, rings, pt, hits] => sessionStep gs dflt qs rings pt hits
   | "cf1dhits" :: args =>
     let r : Option (List Nat) := do
       let lon ← parseRats? (← kv args "lon")
